@@ -23,6 +23,9 @@ type Stream struct {
 	// OnClose, if set, runs inside Close before the connection is closed (schedule control:
 	// "something happens while the underlying stream is being closed")
 	OnClose func()
+	// CloseErr, if set, is what Close returns (the connection is closed all the same): a stream that was reset by
+	// the peer or whose link is gone reports an error from Close
+	CloseErr error
 }
 
 // NewStreamPair returns two connected fake streams.
@@ -41,7 +44,11 @@ func (s *Stream) Close() error {
 	if cb != nil && first {
 		cb()
 	}
-	return s.Conn.Close()
+	err := s.Conn.Close()
+	if s.CloseErr != nil {
+		return s.CloseErr
+	}
+	return err
 }
 
 // CloseCount returns how often Close was called.
